@@ -1,5 +1,6 @@
 //! e57h — conformance harness binding the TLA+ specification in /verif/spec to cry-inc/e57.
 //! It drives the real code and records what happened; verdicts are TLC's.
+mod alloc;
 mod c07;
 mod c15;
 mod c16;
@@ -11,7 +12,11 @@ mod dump;
 mod page;
 mod prog;
 mod simple;
+mod untrusted;
 mod util;
+
+#[global_allocator]
+static GLOBAL: alloc::Counting = alloc::Counting;
 
 fn arg(args: &[String], name: &str) -> Option<String> {
     args.iter().position(|a| a == name).and_then(|i| args.get(i + 1).cloned())
@@ -39,6 +44,8 @@ fn main() {
         "c17-run" => c17::run(&arg(&args, "--progs").expect("--progs"), argn(&args, "--depth", 2) as usize, &out),
         "lib-dump" => dump::run(&arg(&args, "--file").expect("--file"), &out),
         "e57-read" => prog::read_cases(&arg(&args, "--cases").expect("--cases"), &out),
+        "untrusted-run" => untrusted::run(&arg(&args, "--bases").expect("--bases"), &arg(&args, "--muts").expect("--muts"), argn(&args, "--from", 0) as usize, &out),
+        "dump-bases" => untrusted::dump_bases(&arg(&args, "--bases").expect("--bases"), &out),
         "e57-run" => prog::run_programs(&arg(&args, "--progs").expect("--progs"), &out),
         "simple-run" => simple::run(&arg(&args, "--progs").expect("--progs"), &out),
         "page-replay-r" => page::replay_r(&arg(&args, "--edges").expect("--edges"), &out),
